@@ -245,6 +245,58 @@ def judgeValidatorGen : Judge := liftJudge fun input obs => do
            nontrivial := same.any id, sig := sig,
            note := match firstDead with | some i => "current generation's user cache dead after step " ++ toString i | none => optStr obs "note" }
 
+/-! ### resilience: pipeline-level policies after an update -/
+
+def judgeResilience : Judge := liftJudge fun input obs => do
+  let policy := optStr input "policy" "?"
+  let err := optStr obs "err"
+  let tags0 := ["policy:" ++ policy]
+  if err == "bad-input" || err == "bad-spec" || err == "init-panic" || err == "budget-exhausted" then
+    return { agree := true, spec := true, tags := tags0 ++ ["skipped:" ++ err], nontrivial := false, note := optStr obs "note" }
+  if err == "inherit-panic" then
+    return { agree := false, spec := false, tags := tags0 ++ [err], sig := "panic:inherit-panic:Pipeline", note := optStr obs "note" }
+  if let some m := obsPanic obs then
+    return { agree := false, spec := false, sig := "panic:harness:resilience", note := m }
+  let isCB := policy == "cb"
+  let clamp := fun (n : Int) => if n < 1 then 1 else if n > 6 then 6 else n.toNat
+  let gens : List PGen := (← getArr input "gens").toList.map fun g =>
+    ({ filterSpec := (optInt g "fs").natAbs % 3, policy := clamp (optInt g "p") } : PGen)
+  let k := let k := optInt input "k"; if k < 1 then 1 else if k > 8 then 8 else k.toNat
+  let got : List (List Int) := (← getArr obs "calls").toList.map fun row =>
+    match row.getArr? with | .ok a => a.toList.map (fun x => (x.getInt?).toOption.getD (-9)) | .error _ => []
+  match gens with
+  | [] => return { agree := got.isEmpty, spec := true, tags := tags0 ++ ["empty"], nontrivial := false }
+  | g0 :: rest =>
+    -- the policy in force after each step = the policy of the last applied spec
+    let pols := pTrace false (pInit g0) rest
+    let want : List (List Int) := pols.map fun p => (List.range k).map fun j => (policyCalls isCB p j : Int)
+    let ok := got == want
+    let firstBad := ((got.zip want).zipIdx.find? (fun ((g, w), _) => g != w)).map (·.2)
+    let panicked := got.any (fun row => row.any (· == -1))
+    -- what the contrast semantics (instance reused, not re-injected) would show
+    -- (a kept CircuitBreaker instance also keeps its window: it goes on counting where it was)
+    let staleRetry := (pTrace true (pInit g0) rest).map fun p => (List.range k).map fun j => (policyCalls false p j : Int)
+    let staleCB : List (List Int) :=
+      let rec go (fs inj used : Nat) : List PGen → List (List Int)
+        | [] => []
+        | g :: gs =>
+          let (fs', inj', used') := if fs == g.filterSpec then (fs, inj, used) else (g.filterSpec, g.policy, 0)
+          let served := min k (inj' - used')
+          ((List.range k).map fun j => if j < served then (1 : Int) else 0) :: go fs' inj' (used' + served) gs
+      ((List.range k).map fun j => (policyCalls true g0.policy j : Int)) :: go g0.filterSpec g0.policy (min k g0.policy) rest
+    let stale := if isCB then staleCB else staleRetry
+    let sig := if ok then "" else if panicked then "panic:request-after-update:Pipeline"
+      else if got.length != want.length then "truncated:resilience"
+      else if got == stale then "stale-resilience-policy-after-update:Proxy"
+      else "wrong-resilience-policy-after-update:Proxy"
+    let pairs := gens.zip rest
+    let polOnly := pairs.any fun (a, b) => a.filterSpec == b.filterSpec && a.policy != b.policy
+    let tags := tags0 ++ (if polOnly then ["update-changes-only-the-policy"] else []) ++
+      (if pairs.any (fun (a, b) => a.filterSpec != b.filterSpec) then ["update-changes-the-filter-spec"] else []) ++
+      (if pairs.any (fun (a, b) => a == b) then ["no-op-update"] else []) ++ ["updates:" ++ toString rest.length]
+    return { agree := ok, spec := ok, expected := toJson want, tags := tags, nontrivial := polOnly && stale != want, sig := sig,
+             note := match firstBad with | some i => "first step whose requests ran under another policy: " ++ toString i | none => "" }
+
 /-! ### mux -/
 
 /-- Parse state: the filter table built so far (ids are positions). -/
@@ -487,7 +539,7 @@ def judgeRegistry : Judge := liftJudge fun input obs => do
            tags := tags, nontrivial := (want.any (·.1 == "updated")) && optInt obs "bgReads" > 0, sig := sig }
 
 def judges : List (String × Judge) :=
-  [("filters", judgeFilters), ("kafka", judgeKafka), ("validatorgen", judgeValidatorGen), ("mux", judgeMux), ("muxhist", judgeMuxHist), ("registry", judgeRegistry)]
+  [("filters", judgeFilters), ("kafka", judgeKafka), ("validatorgen", judgeValidatorGen), ("resilience", judgeResilience), ("mux", judgeMux), ("muxhist", judgeMuxHist), ("registry", judgeRegistry)]
 
 end Driver.C11
 
